@@ -3,7 +3,7 @@
 //! `(c05 (cmd ...) (pre x.. ...) (tail x.. ...) (alt x.. ...))` parses, with the real crate, the three
 //! argument vectors  A = pre ++ ["--"] ++ tail,  B = pre ++ ["--"] ++ alt,  C = pre ++ ["--"]
 //! against the same command and prints the three canonical results separated by ` ;; `.
-use crate::modes::parse::{build_cmd, show_result, EnvGuard};
+use crate::modes::parse::{build_cmd, kind_name, show_matches, EnvGuard};
 use crate::sexp::Sx;
 use std::ffi::OsString;
 use std::os::unix::ffi::OsStringExt;
@@ -11,6 +11,18 @@ use std::panic::{catch_unwind, AssertUnwindSafe};
 
 fn os(x: &Sx) -> OsString {
     OsString::from_vec(x.bytes())
+}
+
+/// like `parse::show_result`, but the error is not rendered (rendering belongs to C12; the help
+/// head line is outside this property's projection)
+fn show_result(r: Result<clap::ArgMatches, clap::Error>) -> String {
+    match r {
+        Ok(m) => format!("ok {}", show_matches(&m)),
+        Err(e) => {
+            let stream = if e.use_stderr() { "stderr" } else { "stdout" };
+            format!("err {} {} {}", kind_name(e.kind()), stream, e.exit_code())
+        }
+    }
 }
 
 fn c05(a: &[Sx]) -> String {
